@@ -640,6 +640,9 @@ class _Expr(SymEval):
                 names = list(ci.fields)
                 args = [self.eval(a) for a in n.args]
                 kw = {k.arg: self.eval(k.value) for k in n.keywords}
+                cstub = getattr(self.owner, "stubs", {}).get(ci.qualname)
+                if cstub is not None:
+                    return cstub(args, kw)
                 if not names:
                     return Rec(ci, args=tuple(args), **kw)  # exception / warning classes and other plain classes
                 if len(args) > len(names) or any(k not in names for k in kw):
@@ -693,7 +696,13 @@ class _Expr(SymEval):
                     raise Raised("ValueError")
                 return seq[order[0]] if f.id == "min" else seq[order[-1]] if not kwv.get("reverse") else seq[order[0]]
             if f.id in ("round", "min", "max", "sum", "str", "sorted", "list", "tuple", "dict", "set", "frozenset") and n.args and not n.keywords:
-                args = [self.eval(a) for a in n.args]
+                args = []
+                for a in n.args:
+                    if isinstance(a, ast.Starred):
+                        v_ = self.eval(a.value)
+                        args.extend([v_[i] for i in range(v_.shape[0])] if isinstance(v_, np.ndarray) else list(v_))
+                    else:
+                        args.append(self.eval(a))
                 if all(not isinstance(a, (Sym, Rec)) and not (isinstance(a, np.ndarray) and a.dtype == object) for a in args):
                     import builtins
 
